@@ -141,8 +141,11 @@ type AMF struct {
 	Closed     bool
 	send       func([]byte) error
 	closeConn  func()
-	k, opc     []byte
-	RegDone    int
+	// StopReading (optional) makes every later write of the peer fail while this side can still send: with it the
+	// "close-after" fault does not depend on whether the peer's next write is scheduled before or after the close.
+	StopReading func()
+	k, opc      []byte
+	RegDone     int
 }
 
 func New(cfg Config, ch Choices, fault Fault, send func([]byte) error, closeConn func()) *AMF {
@@ -227,6 +230,9 @@ func (a *AMF) down(ue int64, name string, tag string, pdu ngapType.NGAPPDU, nasN
 			a.Events = append(a.Events, ev)
 			a.DLTags = append(a.DLTags, tag)
 			a.DLSent++
+			if a.StopReading != nil {
+				a.StopReading()
+			}
 			a.send(b)
 			a.Closed = true
 			a.closeConn()
